@@ -288,6 +288,59 @@ def check_TP(st, action, obs, ideal):
             raise Violation('ideal-RR', f'{action!r} on {st.config!r}: vapour {gv.tolist()} liquid {lv.tolist()} but Raoult/Rachford-Rice gives '
                             f'{gr.tolist()} / {lr.tolist()}', match=m, residual=float(err / F))
 
+def _gas_state(st):
+    """volatile chemicals + non-condensable gas in g / l (non-dissociating solute allowed beside them); else None"""
+    s = st.s
+    d = vc.dense_by_phase(s)
+    vol, light, heavy, tot = vc.classify(st)
+    if not light or not vol: return None
+    ch = s.chemicals
+    if any(tot[i] and ch._heavy_solutes[k] for k, i in enumerate(ch._heavy_indices)): return None
+    if any(a[i] for p, a in d.items() if p not in ('g', 'l') for i in list(vol) + list(ch._light_indices)): return None
+    g = d.get('g', np.zeros(len(tot)))
+    nv = np.array([tot[i] for i in vol]); gv = np.array([g[i] for i in vol])
+    n_gas = float(sum(tot[i] for i in ch._light_indices))
+    F = float(nv.sum() + n_gas)
+    return vc.ref_for(st.th, vol), nv / F, n_gas / F, gv, nv, F
+
+def check_gas(st, action, obs):
+    """ideal package, non-condensable gas present: the split must agree with my Raoult's-law Rachford-Rice solution with a K = infinity member.
+    (T,P): every vapour flow within 10 V_tol of the total flow; (T,V)/(P,V): the specified V (= fraction of the volatile chemicals vaporised, the
+    library's definition) is bracketed by the reference at the returned T / P -+ 100 tolerances, and the returned flows have that V."""
+    pair = action[1]
+    if pair not in ('TP', 'TV', 'PV'): return
+    gs = _gas_state(st)
+    if gs is None: return
+    ref, z, za, gv, nv, F = gs
+    T = float(st.s.T); P = float(st.s.P)
+    m = _m(action, obs, gas=True)
+    if pair in ('TV', 'PV'): m = dict(m, fixed=float(action[2]), Vspec=float(action[3]))
+    Fv = float(nv.sum())
+    with np.errstate(all='ignore'):
+        beta, xl, yv, v = vc.flash_with_gas(ref, z, za, T, P)
+    if pair == 'TP':
+        err = float(np.abs(gv - F * v).max())
+        if not err <= 10 * V_TOL * F:
+            raise Violation('ideal-RR', f'{action!r} on {st.config!r} (current contents volatile {nv.tolist()}, gas {za * F!r}): vapour flows {gv.tolist()} but Raoult/Rachford-Rice '
+                            f'with a non-condensable member gives {(F * v).tolist()}', match=m, residual=err / F)
+        return
+    V = float(action[3])
+    Vs = float(gv.sum() / Fv)
+    with np.errstate(all='ignore'):
+        if pair == 'PV':
+            dlt = 100 * T_TOL
+            Vlo = vc.flash_with_gas(ref, z, za, T - dlt, P)[3].sum() * F / Fv; Vhi = vc.flash_with_gas(ref, z, za, T + dlt, P)[3].sum() * F / Fv
+        else:
+            dlt = 100 * P_TOL
+            Vlo = vc.flash_with_gas(ref, z, za, T, P + dlt)[3].sum() * F / Fv; Vhi = vc.flash_with_gas(ref, z, za, T, P - dlt)[3].sum() * F / Fv
+    Vmid = float(v.sum() * F / Fv)
+    eps = 10 * V_TOL
+    if not (Vlo - eps <= V <= Vhi + eps):
+        raise Violation('V-spec-point', f'{action!r} on {st.config!r} (volatile {nv.tolist()}, gas {za * F!r}): returned T={T!r} P={P!r}; the reference vaporises {Vmid!r} of the volatile '
+                        f'chemicals there (bracket [{Vlo!r}, {Vhi!r}] over +-{dlt}) but V={V!r} was specified', match=m, residual=max(Vlo - V, V - Vhi))
+    if not abs(Vs - V) <= eps + abs(Vhi - Vlo):
+        raise Violation('V-spec-flows', f'{action!r} on {st.config!r}: the returned flows vaporise {Vs!r} of the volatile chemicals, specified {V!r}; T={T!r} P={P!r}', match=m, residual=abs(Vs - V))
+
 def make_oracle(reference=False, ideal=False, scaling=False):
     def oracle(system, st, action, before, obs):
         if action[0] != 'vle': return
@@ -297,6 +350,7 @@ def make_oracle(reference=False, ideal=False, scaling=False):
         if reference:
             check_V(st, action, obs)
             check_TP(st, action, obs, ideal)
+            if ideal: check_gas(st, action, obs)
         elif action[1] == 'TP':
             check_TP_pure(st, action, obs)
         if scaling:
@@ -378,13 +432,13 @@ def pattern_flows(k, pat, total=4.0):
 class CompGrid(Grid):
     """Grid whose 'magnitude' coordinate is a composition pattern turned into explicit flows; optional extras
     (small amounts of non-condensable gas / non-volatile solute) appended to the composition."""
-    def __init__(self, pkg, vol_comps, patterns_q, patterns_t, dists, calls_fn, call_coords, bases, seed_bases=(), extras=((),), max_dev=2):
+    def __init__(self, pkg, vol_comps, patterns_q, patterns_t, dists, calls_fn, call_coords, bases, seed_bases=(), extras=((),), max_dev=2, extra_flow=0.05):
         super().__init__(pkg, vol_comps, patterns_q, patterns_t, dists, calls_fn, call_coords, bases, seed_bases, max_dev)
-        self.extras = extras
+        self.extras = extras; self.extra_flow = extra_flow
 
     def _expand(self, comp, pat, extra):
         flows = pattern_flows(len(comp), pat)
-        return tuple(comp) + tuple(extra), tuple(flows) + tuple(0.05 * 4.0 / 1.0 * 0.25 for _ in extra)
+        return tuple(comp) + tuple(extra), tuple(flows) + tuple(self.extra_flow for _ in extra)
 
     def enum_configs(self, system, tier, seed):
         out = []; seen = set()
@@ -467,6 +521,11 @@ IDEAL_GRIDS.append(
     CompGrid('SCWi', [c for c in subsets(vc.package_ids('SCW')) if 'CO2' in c and len(c) > 1], ('eq', 'lo0'), ('eq', 'lo0', 'hi-1'), ('l', 'g'), _calls, call_coords,
              bases=[B(('CO2', 'Water', 'Ethanol'), 'lo0', (), 'l', 'TP'), B(('CO2', 'Ethanol'), 'eq', (), 'g', 'TP')]))
 VLE_VOL = ('Water', 'Ethanol', 'Propanol')
+# ideal package WITH a few mol % of non-condensable gas (and solute): VLEi = ideal (Water, Ethanol, Propanol, N2[g], Glucose[s]); 0.2 kmol/hr N2 per 4 kmol/hr volatile = 4.8 mol %
+IDEAL_GRIDS.append(
+    CompGrid('VLEi', subsets(VLE_VOL, 2, 3), ('eq', 'lo0'), ('eq', 'lo0', 'hi-1'), ('l', 'g'), lambda cfg: vle_calls(False, ('TP', 'TV', 'PV', 'PH', 'TH')), call_coords,
+             bases=[B(('Ethanol', 'Propanol'), 'eq', ('N2',), 'l', 'TV'), B(VLE_VOL, 'eq', ('N2', 'Glucose'), 'g', 'TP'), B(('Water', 'Ethanol'), 'lo0', ('N2',), 'l', 'PV')],
+             extras=(('N2',), ('N2', 'Glucose')), extra_flow=0.2))
 SPEC_GRID = CompGrid('VLE', subsets(VLE_VOL), ('eq', 'lo0', 'hi-1'), PATTERNS, DISTS, _calls, call_coords,
                      bases=[B(('Water', 'Ethanol'), 'eq', ('N2', 'Glucose'), 'l', 'PH'), B(VLE_VOL, 'lo0', (), 'half', 'PS'),
                             B(('Ethanol', 'Propanol'), 'eq', ('N2',), 'g', 'TP'), B(('Water',), 'eq', ('Glucose',), 'l', 'TH')],
@@ -625,6 +684,8 @@ REUSE = {
              [(('Heptane', 'Octane', 'Toluene'), (1.5, 1.0, 1.5)), (('Hexane', 'Heptane'), (2.0, 2.0)), (('Hexane', 'Heptane', 'Octane', 'Benzene', 'Toluene'), (0.8, 0.8, 0.8, 0.8, 0.8))], 'HCi'),
     'HCi':  ((('Hexane', 'Benzene', 'Toluene'), (1.0, 1.5, 1.5)),
              [(('Heptane', 'Octane', 'Toluene'), (1.5, 1.0, 1.5)), (('Hexane', 'Heptane'), (2.0, 2.0)), (('Hexane', 'Heptane', 'Octane', 'Benzene', 'Toluene'), (0.8, 0.8, 0.8, 0.8, 0.8))], 'HC'),
+    'VLEi': ((('Ethanol', 'Propanol', 'N2'), (2.0, 2.0, 0.1)),
+             [(('Water', 'Ethanol', 'N2'), (2.0, 2.0, 0.3)), (('Water', 'Ethanol', 'Propanol', 'N2', 'Glucose'), (1.0, 1.5, 1.5, 0.2, 0.2)), (('Ethanol', 'Propanol'), (2.0, 2.0))], 'VLE'),
     'HCpr': ((('Hexane', 'Octane'), (2.0, 2.0)),
              [(('Heptane', 'Toluene'), (2.0, 2.0)), (('Hexane', 'Heptane', 'Octane'), (1.5, 1.0, 1.5))], 'HC'),
     'A':    ((('Water', 'Ethanol'), (2.0, 2.0)), [(('Ethanol', 'Methanol'), (2.0, 2.0)), (('Water', 'Ethanol', 'Methanol'), (1.0, 1.0, 2.0))], 'Ai'),
@@ -636,7 +697,7 @@ REUSE_CALLS = [('vle', 'TV', 350., 0.5), ('vle', 'Tp', 350., 0.05), ('vle', 'Tp'
                ('vle', 'Tp', 350., 0.5), ('vle', 'TP', 350., 101325.), ('vle', 'PH', 101325., 0.5), ('vle', 'TV', 350., 0.03)]
 
 def reuse_configs(system, tier, seed):
-    pk = ['ALC', 'ALCi', 'HC', 'HCi'] if tier == 'quick' else list(REUSE)
+    pk = ['ALC', 'ALCi', 'HC', 'HCi', 'VLEi'] if tier == 'quick' else list(REUSE)
     out = []
     for pkg in pk:
         (comp, flows), refills, other = REUSE[pkg]
@@ -659,6 +720,11 @@ def reuse_actions(system, st):
         out.append(('pkg', other if cur == st.config[0] else st.config[0]))
         # in-place scaling: composition identical (bit-identical for powers of two), magnitude changed, same specifications again
         out += [('scale', 2.0), ('scale', 0.5)] + ([] if system.tier == 'quick' else [('scale', 3.0)])
+        # only the NON-PARTITIONING member changes (gas flow x3, /3; solute x4): the set of chemicals present stays the same
+        IDs_ = st.s.chemicals.IDs; tot_ = vc.totals(st.s)
+        for ID_, fs_ in (('N2', (3.0, 1. / 3.)), ('Glucose', (4.0,))):
+            if ID_ in IDs_ and tot_[IDs_.index(ID_)]:
+                out += [('edit', ID_, f_) for f_ in fs_]
     return out
 
 def reuse_oracle(system, st, action, before, obs):
